@@ -157,6 +157,7 @@ type Cfg struct {
 	LiveRT   bool   `json:"liveRT"`   // the storage's RefreshTokenRequest is a live view of the stored grant
 	NoKeyUse bool   `json:"noKeyUse"` // the storage's public keys carry no "use"
 	Dyn      bool   `json:"dyn"`      // issuer derived from the request host (op.IssuerFromHost): several tenants on one provider
+	MidRot   bool   `json:"midRot"`   // the operator rotates signing keys across algorithms (verifiers configured for all of them); rotations may land mid-request
 	Alg      string `json:"alg"`
 	SessSt   string `json:"sessionState"`
 	Policy   Policy `json:"policy"`
@@ -185,6 +186,20 @@ func typeFromURN(u string) string {
 		}
 	}
 	return u
+}
+
+// AllAlgs: every signature algorithm the harness ever signs provider tokens with.
+var AllAlgs = []string{"RS256", "ES256", "PS256", "ES384", "ES512", "EdDSA", "RS384"}
+
+// otherHashFamily names an algorithm whose at_hash / c_hash hash differs from alg's.
+func otherHashFamily(alg string) string {
+	switch alg {
+	case "RS256", "ES256":
+		return "ES384"
+	case "PS256":
+		return "ES512"
+	}
+	return "ES256"
 }
 
 func DefaultCfg(router string) Cfg {
@@ -227,6 +242,10 @@ func BuildProvider(store *modelstore.Store, cfg Cfg, extra ...op.Option) (http.H
 		// an operator who signs with an algorithm outside the verifiers' default list configures the provider's own verifiers for it
 		opts = append(opts, op.WithAccessTokenVerifierOpts(op.WithSupportedAccessTokenSigningAlgorithms(alg)),
 			op.WithIDTokenHintVerifierOpts(op.WithSupportedIDTokenHintSigningAlgorithms(alg)))
+	}
+	if cfg.MidRot {
+		opts = append(opts, op.WithAccessTokenVerifierOpts(op.WithSupportedAccessTokenSigningAlgorithms(AllAlgs...)),
+			op.WithIDTokenHintVerifierOpts(op.WithSupportedIDTokenHintSigningAlgorithms(AllAlgs...)))
 	}
 	issuer := op.StaticIssuer(Issuer)
 	if cfg.Dyn {
